@@ -8,11 +8,13 @@ package middleware
 //@ macro ridOf(c) = unboxStr(ctxVal(c, ridKey()).val)
 
 //@ func MetadataValue
+//@   params md key
 //@   ensures first: len(md[lowerS(key)]) > 0 ==> result == md[lowerS(key)][0]
 //@   ensures none: len(md[lowerS(key)]) == 0 ==> result == ""
 //@   modifies nothing
 
 //@ func generateRequestID
+//@   params ctx opts
 //@   property C19
 //@   requires ctx != nil && opts != nil
 //@   requires ctxVal(ctx, ridKey()) == nil || typeIs(ctxVal(ctx, ridKey()), string)
@@ -31,6 +33,7 @@ package middleware
 //@ macro mdFirst(md, k) = ite(len(md[lowerS(k)]) > 0, md[lowerS(k)][0], "")
 
 //@ func withTrace
+//@   params ctx fullMethod opts
 //@   property C19
 //@   requires ctx != nil && opts != nil && envReadable
 //@   requires middleware.TraceIDKey != middleware.TraceSpanIDKey && middleware.TraceIDKey != middleware.TraceParentSpanIDKey && middleware.TraceSpanIDKey != middleware.TraceParentSpanIDKey
@@ -43,6 +46,7 @@ package middleware
 //@   ensures* unsampled: inT == "" && (sampleCalls == old(sampleCalls) || !lastSample) ==> result == ctx
 
 //@ func setTrace
+//@   params ctx
 //@   property C19
 //@   requires ctx != nil
 //@   let tv = ctxVal(ctx, iface(string, middleware.TraceIDKey))
